@@ -59,9 +59,23 @@ theorem txExtended_ne_txLegacy (t : Tx) (h : 1 ≤ t.vin.length) : txExtended t 
   simp only [List.cons_append, List.cons.injEq] at this
   exact hb this.1.symm
 
-/-- value of `GetTxid` for any serialisable witness: the hash of the stripped serialisation -/
+/-- fields in wire range pass the constructors of the stripped copy -/
+theorem ctorValid_of_wf {t : Tx} (wf : WFTx t) : ctorValid t = true := by
+  obtain ⟨_, _, _, _, _, hvin, _, _, _, hlock⟩ := wf
+  unfold ctorValid
+  simp only [Bool.and_eq_true, decide_eq_true_eq, List.all_eq_true, beq_iff_eq]
+  refine ⟨by omega, ?_⟩
+  intro i hi
+  obtain ⟨⟨h1, h2⟩, _, h3⟩ := hvin i hi
+  exact ⟨⟨h1, by omega⟩, by omega⟩
+
+/-- the constructor test does not look at the witness -/
+theorem ctorValid_wit (t : Tx) (w : List WitStack) : ctorValid { t with wit := w } = ctorValid t := rfl
+
+/-- value of `GetTxid` for any serialisable witness: ValueError if the stripped copy cannot be
+    constructed *and* the witness object has entries, else the hash of the stripped serialisation -/
 theorem getTxidWith_eq (H : Bytes → Bytes) (t : Tx) (hw : ∀ s ∈ t.wit, WFWitStack s)
-    (hl : t.nLockTime < 2 ^ 32) :
+    (hc : ctorValid t = true) :
     getTxidWith H t = (serTx { t with wit := [] }).map H := by
   unfold getTxidWith
   rw [witNeDefault_ok hw]
@@ -74,9 +88,65 @@ theorem getTxidWith_eq (H : Bytes → Bytes) (t : Tx) (hw : ∀ s ∈ t.wit, WFW
     rw [← this]
     cases serTx t <;> rfl
   | cons s w =>
-    have hgt : ¬ t.nLockTime > 0xffffffff := by omega
-    simp only [List.isEmpty_cons, Bool.not_false, if_true, hgt, if_false]
+    simp only [List.isEmpty_cons, Bool.not_false, if_true, hc, Bool.not_true, Bool.false_eq_true, if_false]
     cases serTx { t with wit := [] } <;> rfl
+
+/-- when the constructors refuse the stripped copy `GetTxid` raises ValueError as soon as the
+    witness object has an entry (nothing is serialised first) -/
+theorem getTxidWith_valueerr (H : Bytes → Bytes) (t : Tx) (hw : ∀ s ∈ t.wit, WFWitStack s)
+    (hne : t.wit ≠ []) (hc : ctorValid t = false) : getTxidWith H t = .error .valueerr := by
+  unfold getTxidWith
+  rw [witNeDefault_ok hw]
+  cases hwit : t.wit with
+  | nil => exact absurd hwit hne
+  | cons s w =>
+    simp only [ok_bind, List.isEmpty_cons, Bool.not_false, if_true, hc]
+    rfl
+
+/-! ### `CMutableTransaction.stream_deserialize` -/
+
+theorem mutableDefaultWit_of_hasWitness {t : Tx} (h : t.hasWitness = true) : mutableDefaultWit t = t := by
+  unfold mutableDefaultWit
+  have := hasWitness_wit_ne_nil h
+  cases hw : t.wit with
+  | nil => exact absurd hw this
+  | cons s w => simp
+
+theorem hasWitness_replicate (t : Tx) (n : Nat) :
+    ({ t with wit := List.replicate n [] } : Tx).hasWitness = false := by
+  simp [Tx.hasWitness]
+
+theorem wf_mutableDefaultWit {t : Tx} (wf : WFTx t) : WFTx (mutableDefaultWit t) := by
+  unfold mutableDefaultWit
+  split
+  · obtain ⟨hv1, hv2, h1, hin, hout, hvin, hvout, _, _, hlock⟩ := wf
+    refine ⟨hv1, hv2, h1, hin, hout, hvin, hvout, Or.inr (by simp), ?_, hlock⟩
+    intro s hs
+    have : s = [] := (List.mem_replicate.1 hs).2
+    subst this
+    exact ⟨by decide, by simp⟩
+  · exact wf
+
+/-- the mutable default witness (one empty stack per input) serialises like no witness at all -/
+theorem txBytes_mutableDefaultWit (t : Tx) : txBytes (mutableDefaultWit t) = txBytes t := by
+  unfold mutableDefaultWit
+  split
+  · rename_i h
+    have h0 : t.wit = [] := List.isEmpty_iff.1 h
+    have hw : t.hasWitness = false := by simp [Tx.hasWitness, h0]
+    simp only [txBytes, hasWitness_replicate, hw, Bool.false_eq_true, if_false]
+    rfl
+  · rfl
+
+theorem dec_deTxMutable (t : Tx) (wf : WFTx t) :
+    Dec deTxMutable (txBytes t) (mutableDefaultWit (normTx t)) := by
+  unfold deTxMutable
+  exact Dec.bind_last (dec_deTx t wf) (fun _ => rfl)
+
+theorem clean_deTxMutable : Clean deTxMutable := by
+  intro s; unfold deTxMutable
+  clean_step (clean_deTx s)
+  exact LibErr.pure _
 
 /-- serialisation is injective on well-formed values up to the normal form -/
 theorem txBytes_inj {a b : Tx} (wa : WFTx a) (wb : WFTx b) (h : txBytes a = txBytes b) :
